@@ -2,7 +2,7 @@
    paths; the table obligations of T3 are regenerated from ctraits.c and compiled on every run by
    tools/props/c18.py from Common/CTables.v).  Memory safety of ctraits.c as a whole is NOT a
    theorem here (no C semantics): it is searched for by sanitised execution. *)
-From Coq Require Import ZArith List Bool.
+From Coq Require Import ZArith List Bool Lia.
 From TV Require Import Common.Harness Common.CTables C18.Model C18.Law C18.Proofs.
 Import ListNotations.
 Open Scope Z_scope.
@@ -37,6 +37,22 @@ Theorem every_step_neutral :
   forall (c : cfg) (pool : list atom) (d : dict) (o : op), Neutral d (snd (step c pool d o)).
 Proof. exact step_Neutral. Qed.
 Print Assumptions every_step_neutral.
+
+(* __setstate__ of a trait definition object: neutral on a FRESH trait (what unpickling does) ... *)
+Theorem setstate_fresh_neutral :
+  forall (new : list atom) (a : atom), net (setstate_ledger [] new) a = held new a - held [] a.
+Proof.
+  intros new a. induction new as [|x r IH]; [reflexivity|].
+  unfold setstate_ledger in *. simpl fold_right. rewrite net_inc, IH. simpl. lia.
+Qed.
+Print Assumptions setstate_fresh_neutral.
+
+(* ... but not on a trait that already holds slots: the previous contents are never released
+   (known finding ctrait/reference-leak: every further __setstate__ leaks one reference per slot) *)
+Theorem setstate_leak_refuted :
+  exists (old new : list atom) (a : atom), net (setstate_ledger old new) a <> held new a - held old a.
+Proof. exists [7], [7], 7. vm_compute. discriminate. Qed.
+Print Assumptions setstate_leak_refuted.
 
 (* general form of T3's obligations (instantiated on the regenerated tables at run time):
    any tables passing the boolean check make func_index terminate inside the searched table for
